@@ -186,16 +186,39 @@ theorem Emit.trans {a b c : SlotState} {e1 e2 : List Event} (h1 : Emit a b e1) (
   · intro hx; exact h2.s2sMono (h1.s2sMono hx)
 
 theorem mem_insertSet (l : List Nat) (k x : Nat) : x ∈ insertSet l k ↔ x ∈ l ∨ x = k := by
-  unfold insertSet
-  split
-  · rename_i hc
-    have : k ∈ l := by simpa [List.contains_eq_mem] using hc
-    constructor
-    · intro h; exact Or.inl h
-    · intro h; rcases h with h | h
-      · exact h
-      · subst h; exact this
-  · simp [List.mem_append]
+  induction l with
+  | nil => simp [insertSet]
+  | cons y ys ih =>
+    unfold insertSet
+    split
+    · simp only [List.mem_cons]
+      constructor
+      · intro h; rcases h with h | h | h
+        · exact Or.inr h
+        · exact Or.inl (Or.inl h)
+        · exact Or.inl (Or.inr h)
+      · intro h; rcases h with (h | h) | h
+        · exact Or.inr (Or.inl h)
+        · exact Or.inr (Or.inr h)
+        · exact Or.inl h
+    · split
+      · rename_i hk
+        simp only [List.mem_cons]
+        constructor
+        · intro h; exact Or.inl h
+        · intro h; rcases h with h | h
+          · exact h
+          · left; rw [h, hk]
+      · simp only [List.mem_cons, ih]
+        constructor
+        · intro h; rcases h with h | h | h
+          · exact Or.inl (Or.inl h)
+          · exact Or.inl (Or.inr h)
+          · exact Or.inr h
+        · intro h; rcases h with (h | h) | h
+          · exact Or.inl h
+          · exact Or.inr (Or.inl h)
+          · exact Or.inr (Or.inr h)
 
 theorem checkS2N_sentS2S (e : Epoch) (st : SlotState) (h : Nat) : (st.checkS2N e h).1.sentS2S = st.sentS2S := by
   unfold SlotState.checkS2N
